@@ -46,7 +46,8 @@ namespace GeographicLib {
       throw GeographicErr("Illegal zone requested " + Utility::str(setzone));
     if (setzone >= MINZONE || setzone == INVALID)
       return setzone;
-    if (isnan(lat) || isnan(lon)) // Check if lat or lon is a NaN
+    // Check if lat or lon is a NaN; an infinite lon is normalized to NaN
+    if (isnan(lat) || !isfinite(lon))
       return INVALID;
     if (setzone == UTM || (lat >= -80 && lat < 84)) {
       int ilon = int(floor(Math::AngNormalize(lon)));
